@@ -1,0 +1,58 @@
+//go:build verif
+// +build verif
+
+package server
+
+// Thin wrappers that expose unexported functions to the verification harness (/verif/harness).
+// Built only with -tags verif. No logic lives here.
+
+import (
+	"net/http"
+	"net/url"
+
+	"github.com/richiefi/rrrouter/proxy"
+)
+
+type VerifRange struct {
+	S, E *int64
+}
+
+func VerifGetRange(h http.Header) *VerifRange {
+	rr := getRange(h)
+	if rr == nil {
+		return nil
+	}
+	return &VerifRange{rr.s, rr.e}
+}
+
+func (v *VerifRange) rr() *requestRange { return &requestRange{v.S, v.E} }
+
+func (v *VerifRange) Start(cl int64) int64              { return v.rr().start(cl) }
+func (v *VerifRange) End(cl int64) int64                { return v.rr().end(cl) }
+func (v *VerifRange) Size(cl int64) int64               { return v.rr().size(cl) }
+func (v *VerifRange) ContentRangeValue(cl int64) string { return v.rr().contentRangeValue(cl) }
+
+func VerifSetRangedHeaders(v *VerifRange, contentLength int64, statusCode int, h *http.Header) (int, *http.Header) {
+	var rr *requestRange
+	if v != nil {
+		rr = v.rr()
+	}
+	return setRangedHeaders(rr, contentLength, statusCode, h)
+}
+
+func VerifUrlEquals(u1, u2 *url.URL) bool { return urlEquals(u1, u2) }
+func VerifShouldSkipCaching(h http.Header, rf proxy.RoutingFlavors) bool {
+	return shouldSkipCaching(h, rf)
+}
+func VerifClearAndCopyHeaders(w http.ResponseWriter, originHeader http.Header, alwaysInclude http.Header) http.Header {
+	return clearAndCopyHeaders(w, originHeader, alwaysInclude)
+}
+func VerifRequestWithRedirect(r *http.Request, location string) (*http.Request, error) {
+	return requestWithRedirect(r, location)
+}
+func VerifPreprocessHeaders(r *http.Request, overrides map[string]*string) *http.Request {
+	return preprocessHeaders(r, overrides)
+}
+func VerifRuleDestinationRequest(r *http.Request, rule proxy.Rule) *http.Request {
+	return ruleDestinationRequest(r, rule)
+}
